@@ -23,7 +23,7 @@ CARRIERS = {
     "valid": ["nd_f8", "ma_nan", "ma_junk"],
     "pressure": ["nd_f8", "list_nan"],
 }
-TCARRIERS = ["dt64ns", "epoch_int", "dtindex", "dt64s", "pydt", "series_naive", "epoch_float"]
+TCARRIERS = ["dt64ns", "epoch_int", "dtindex", "dt64s", "pydt", "series_naive", "epoch_float", "dtindex_us", "series_ms"]
 
 
 def snap(o):
